@@ -1,9 +1,9 @@
-\* C13 quick: pairwise covering option rows x random project pairs (one shard of 1000 cases; the driver runs 4)
-\* run: SYNC_OUT=/tmp/cases.ndjson [SYNC_IN=/tmp/recs.ndjson] tlc -workers 1 -seed N -config MC_C13_quick.cfg Sync.tla   (the drivers generate the same text)
+\* command line front end: TLC generates (projects, `signac sync` flags), checks the C15 requirements on CliFn = flags ; SyncFn, exports the cases (the driver runs 2 shards of 150)
+\* run: SYNC_OUT=/tmp/cases.ndjson [SYNC_IN=/tmp/recs.ndjson] tlc -workers 1 -seed N -config MC_cli.cfg Sync.tla   (the drivers generate the same text)
 CONSTANTS
-  MODE = "gen"
-  PROP = "C13"
-  NCASE = 1000
+  MODE = "cligen"
+  PROP = "C15"
+  NCASE = 150
   FULLOPT = FALSE
   OFFSET = 0
   \* deviations of the pinned tree (TRUE = as the pinned tree); the drivers probe the real code and set them
@@ -18,12 +18,10 @@ CONSTANTS
   CliFilterOnCwd = TRUE
 INIT Init
 NEXT Next
-INVARIANT Superset
-INVARIANT FilesArrive
-INVARIANT DstOnlyUntouched
-INVARIANT SrcUntouched
-INVARIANT Idempotent
-INVARIANT NothingElse
+INVARIANT DryRunFrame
+INVARIANT DeepByContent
+INVARIANT ExcludeFrame
+INVARIANT SelectionFrame
 INVARIANT ExcusesOnlyWithDeviation
 POSTCONDITION Export
 ALIAS DebugAlias
